@@ -419,10 +419,10 @@ func openBig(s *sparse, streaming bool) (d *zipslicer.Directory, done func(), er
 
 func TestC17_BeyondFourGiB(t *testing.T) {
 	// Python works on a sparse file and the streaming reader goes through every byte of
-	// the 4 GiB members (seconds a case): one case in 200 (quick) or 10 (thorough) each
+	// the 4 GiB members (seconds a case): one case in 200 (quick) or 60 (thorough) each
 	slowEvery := evid.EnvInt("VERIF_C17_BIG_SLOW", 200)
 	if evid.Thorough() {
-		slowEvery = 10
+		slowEvery = 60
 	}
 	rapid.Check(t, func(t *rapid.T) {
 		const test = "TestC17_BeyondFourGiB"
